@@ -70,11 +70,12 @@ class SolverCache:
 
 
 class Obligation:
-    __slots__ = ('name', 'hyps', 'goal', 'line', 'kind', 'path', 'info')
+    __slots__ = ('name', 'hyps', 'goal', 'line', 'kind', 'path', 'info', 'labels')
 
     def __init__(self, name, hyps, goal, line=None, kind='ensures', path=None, info=None):
         self.name, self.hyps, self.goal, self.line, self.kind, self.path, self.info = \
             name, list(hyps), goal, line, kind, path, info
+        self.labels = None
 
 
 class Ctx:
@@ -177,7 +178,9 @@ class Ctx:
             if ex is not None:
                 goal = z3.Or(ex, goal)
                 info = dict(info or {}, excluded_by_known_finding=True)
-        self.obligations.append(Obligation(name, self.pc, goal, line, kind, tuple(self.trace), info))
+        ob = Obligation(name, self.pc, goal, line, kind, tuple(self.trace), info)
+        ob.labels = list(zip(self.labels, self.trace))
+        self.obligations.append(ob)
 
     def note(self, s):
         if s not in self.notes:
